@@ -17,7 +17,9 @@ canonical options, namespace view used). -/
 abbrev F := Nat × String × Nat
 
 def optsStr (o : O) : String := toString (Malt.Options.tupleSexp o)
-def T : Code → O → Nat → F := fun c o s => (c.id, optsStr o, s)
+/-- `fail`: code values whose conversion raises. -/
+def T (fail : List Nat) : Code → O → Nat → Option F := fun c o s =>
+  if fail.contains c.val then none else some (c.id, optsStr o, s)
 
 def feats? (xs : List Sexp) : Option (List Feature) :=
   xs.mapM fun x => x.str? >>= Feature.ofName?
@@ -48,7 +50,7 @@ inductive Ev where
   | iset (t : Nat) (f : Nat)
   | acq (t : Nat)
   | rel (t : Nat)
-  | xform (t : Nat)
+  | xform (t : Nat) (ok : Bool)
   | inst (t : Nat) (f : Nat) (env : Nat)
   | gc (c : Code)
 
@@ -65,7 +67,7 @@ def ev? : Sexp → Option Ev
   | .list [.atom "iset", t, f] => do pure (.iset (← t.nat?) (← f.nat?))
   | .list [.atom "acq", t] => do pure (.acq (← t.nat?))
   | .list [.atom "rel", t] => do pure (.rel (← t.nat?))
-  | .list [.atom "xform", t] => do pure (.xform (← t.nat?))
+  | .list [.atom "xform", t, ok] => do pure (.xform (← t.nat?) (← ok.bool?))
   | .list [.atom "inst", t, f, e] => do pure (.inst (← t.nat?) (← f.nat?) (← e.nat?))
   | .list [.atom "gc", i, v] => do pure (.gc ⟨← i.nat?, ← v.nat?⟩)
   | _ => none
@@ -77,6 +79,7 @@ def pcName : Pc F → String
   | .rel _ _ => "rel" | .inst _ _ => "inst"
 
 structure V where
+  fail : List Nat
   s : State O F
   bind : List (Nat × F)          -- factory serial of the implementation ↦ model factory
 
@@ -94,13 +97,13 @@ def stepEv (v : V) (e : Ev) : Except String V :=
       match th.todo with
       | [] => .error s!"thread {t} has no request left"
       | r :: _ => k th r
-  let adv (t : Nat) (v : V) : V := { v with s := step T v.s (.thr t) }
+  let adv (t : Nat) (v : V) : V := { v with s := step (T v.fail) v.s (.thr t) }
   let mism (t : Nat) (th : Thread O F) (what : String) : Except String V :=
     .error s!"thread {t} is at {pcName th.pc} in the model; event {what}"
   match e with
   | .gc c =>
     if live v.s c then .error s!"gc of code {c.id} while a live function uses it"
-    else if (v.s.outer.any (fun e => e.1 = c)) then .ok { v with s := step T v.s (.gc c) }
+    else if (v.s.outer.any (fun e => e.1 = c)) then .ok { v with s := step (T v.fail) v.s (.gc c) }
     else .error s!"gc of code {c.id}: the model has no entry keyed by this object"
   | .begin t => thrStep t fun th _ =>
       match th.pc with
@@ -152,9 +155,12 @@ def stepEv (v : V) (e : Ev) : Except String V :=
       match th.pc with
       | .rel _ _ => .ok (adv t v)
       | _ => mism t th "rel"
-  | .xform t => thrStep t fun th _ =>
+  | .xform t ok => thrStep t fun th r =>
       match th.pc with
-      | .xform => .ok (adv t v)
+      | .xform =>
+        let exp := (T v.fail r.code r.opts r.env.sig).isSome
+        if exp = ok then .ok (adv t v)
+        else .error s!"thread {t}: conversion {if ok then "succeeded" else "raised"}, model expects the opposite"
       | _ => mism t th "xform"
   | .inst t ser env => thrStep t fun th r =>
       match th.pc with
@@ -188,9 +194,9 @@ def classSexp (progs : List (List (Request O))) : List Sexp :=
    .list (.atom "equal-code-ids" :: badIds.map Sexp.ofNat),
    .list (.atom "sig-split-vals" :: badVals.map Sexp.ofNat)]
 
-def outcomeSexp (e : Request O × Option F) : Sexp :=
+def outcomeSexp (fail : List Nat) (e : Request O × Option F) : Sexp :=
   match e.2 with
-  | none => .list [.atom "err", Sexp.ofNat e.1.code.id]
+  | none => .list [.atom "err", Sexp.ofNat e.1.code.id, Sexp.ofBool (T fail e.1.code e.1.opts e.1.env.sig).isNone]
   | some f => .list [.atom "ok", Sexp.ofNat e.1.code.id, Sexp.ofNat f.1, Sexp.ofNat f.2.2, Sexp.ofNat e.1.env.sig,
                      Sexp.ofBool (f.2.2 = e.1.env.sig), Sexp.ofBool (f.1 = e.1.code.id)]
 
@@ -204,10 +210,11 @@ def run (f : Option String) : String := f.getD "bad-args"
 
 def handlers : List (String × (List Sexp → String)) := [
   ("cache-validate", fun a => run do
-      let [ps, .list es] := a | none
+      let [ps, .list es, .list fl] := a | none
       let progs ← progs? ps
       let evs ← es.mapM ev?
-      let (n, res) := validate { s := init progs, bind := [] } evs
+      let fail ← fl.mapM Sexp.nat?
+      let (n, res) := validate { fail := fail, s := init progs, bind := [] } evs
       match res with
       | .error m => pure (toString (Sexp.list [.atom "reject", Sexp.ofNat n, .atom m]))
       | .ok v =>
@@ -215,7 +222,7 @@ def handlers : List (String × (List Sexp → String)) := [
         pure (toString (Sexp.list ([.atom "accept", Sexp.ofNat n,
           .list [.atom "unfinished", Sexp.ofNat unfinished],
           .list [.atom "lock-free", Sexp.ofBool v.s.lock.isNone],
-          .list (.atom "outcomes" :: v.s.threads.map fun th => .list (th.results.map outcomeSexp)),
+          .list (.atom "outcomes" :: v.s.threads.map fun th => .list (th.results.map (outcomeSexp fail))),
           .list [.atom "counts", countsSexp v.s]] ++ classSexp progs)))),
   ("cache-class", fun a => run do
       let [ps] := a | none
@@ -223,14 +230,15 @@ def handlers : List (String × (List Sexp → String)) := [
       pure (toString (Sexp.list (classSexp progs)))),
   -- run the model itself under a given schedule: labels are thread ids or (gc id val)
   ("cache-run", fun a => run do
-      let [ps, .list ls] := a | none
+      let [ps, .list ls, .list fl] := a | none
       let progs ← progs? ps
+      let fail ← fl.mapM Sexp.nat?
       let labels ← ls.mapM fun l => match l with
         | .list [.atom "gc", i, v] => do pure (Label.gc ⟨← i.nat?, ← v.nat?⟩)
         | x => x.nat?.map Label.thr
-      let s := Malt.Cache.run T (init progs) labels
+      let s := Malt.Cache.run (T fail) (init progs) labels
       pure (toString (Sexp.list [
-          .list (.atom "outcomes" :: s.threads.map fun th => .list (th.results.map outcomeSexp)),
+          .list (.atom "outcomes" :: s.threads.map fun th => .list (th.results.map (outcomeSexp fail))),
           .list [.atom "counts", countsSexp s]])))
 ]
 
